@@ -21,7 +21,7 @@ func TestVerifC19(t *testing.T) {
 		Assumptions: []string{"sftpExtensions is a package-level variable: the harness changes it only between sessions"},
 		Units: func(tier vfTier, seed uint64) int {
 			if tier == vfThorough {
-				return 2 + 30
+				return 2 + 600
 			}
 			return 2 + 2
 		},
